@@ -17,6 +17,7 @@ def corpus():
         "scn 2 L1/L5;Pe/L6;L3/L7 -",
         "scn 3 r1/r2;r3/F|Pr;_/L1 c1=L1;c2=L2;c3=L3",
         "scn2 2 _/L1;_/L2;_/L3",
+        "scn 2 _/L0;_/WN|WPs|WQ;_/L2 -",      # a component that stops inside t.Time still stops the iteration
     ]
 
 
